@@ -988,12 +988,18 @@ impl<K: Hash + Eq + Send + Sync + 'static> MokaCache<K, LifetimeCache<Arc<Varied
         key: K,
         response: VariedResponse,
     ) -> CacheOut<VariedResponse> {
-        let lifetime =
-            parse::CacheControl::from_headers(response.first().0.get_identity().headers())
-                .ok()
-                .as_ref()
-                .and_then(parse::CacheControl::as_freshness)
-                .map(|s| u64::from(s).std_seconds());
+        let headers = response.first().0.get_identity().headers();
+        let cache_control = parse::CacheControl::from_headers(headers).ok();
+        // `kvarn-cache-control: none` keeps the response out of the server cache
+        let no_store = headers.contains_key("kvarn-cache-control")
+            && cache_control.as_ref().map_or(false, |cc| !cc.store());
+        if no_store {
+            return CacheOut::NotInserted(response);
+        }
+        let lifetime = cache_control
+            .as_ref()
+            .and_then(parse::CacheControl::as_freshness)
+            .map(|s| u64::from(s).std_seconds());
 
         debug!("Inserted item to cache with lifetime {lifetime:?}");
 
